@@ -13,6 +13,7 @@ def run_history(job):
     progs = job["programs"]
     objs = []
     out = []
+    cfg = None
     for act in job["history"]:
         k = act[0]
         try:
@@ -30,6 +31,26 @@ def run_history(job):
                 eff = None if cfg is None else [getattr(cfg, n) for n in Configs.config_names]
                 text = oneliner.convert_code_string(progs[act[2]], configs=cfg)
                 out.append({"eff": eff, "text": canon_ol(text)})
+            elif k == "drop":
+                # the caller forgets an options object: its memory (and id()) may be reused by the next one
+                objs[act[1]] = None
+                cfg = None            # (the last conversion's local reference)
+                import gc
+                gc.collect()
+                out.append(None)
+            elif k == "churn":
+                # many short-lived options objects with an option set (a helper that builds its own Configs per call), all
+                # forgotten; then as many fresh ones: every fresh object must read the defaults, whatever memory it reuses
+                tmp = [Configs() for _ in range(act[3])]
+                for t in tmp:
+                    setattr(t, act[1], act[2])
+                del tmp, t
+                import gc
+                gc.collect()
+                fresh = [Configs() for _ in range(act[3])]
+                seen = sorted({tuple(getattr(f, n) for n in Configs.config_names) for f in fresh})
+                out.append({"fresh_option_values": [list(x) for x in seen]})
+                del fresh
             elif k == "reseed":
                 random.seed(act[1])
                 out.append(None)
